@@ -1202,6 +1202,8 @@ class Exec(object):
             return self.invoke(st, r.callee, [], negate != r.negate)
         if isinstance(r, tuple) and r and r[0] == 'BODY':
             body, bargs = r[1], r[2]
+            if body.errors:
+                raise Unsupported('function %s contains a MIR construct the front end does not understand: %s' % (body.sname, body.errors[0][:160]))
             self.bodies_used.add(body.sname)
             nf = Frame(body)
             if len(body.args) != len(bargs):
